@@ -3,6 +3,7 @@ package c03
 
 import (
 	"github.com/php-any/origami/data"
+	"github.com/php-any/origami/std"
 	"verif/harness/sx"
 	"verif/symx"
 )
@@ -310,9 +311,14 @@ var truthCtx = []string{
 	"emit(($a && true) ? 1 : 0);",
 	"emit(($a || false) ? 1 : 0);",
 	"emit(!!$a);",
+	"emit((bool)$a);",
 }
 
+// the cast syntax resolves `(bool)$x` to a call of the function `bool` that package std registers
+var stdCasts = []func() data.FuncStmt{func() data.FuncStmt { return std.NewBoolFunction() }}
+
 func truthIn(ctxIdx int, v data.Value) (bool, bool) {
+	sx.Builtins = stdCasts
 	s := sx.Compile(truthCtx[ctxIdx])
 	if s.Err != nil {
 		return false, false
